@@ -18,9 +18,7 @@ NA = {
 "C17":"pure relation between corruption site and message text",
 "C18":"aliasing inside one deterministic call; stack exhaustion on cyclic aliases is input-driven, not an injectable fault",
 }
-PENDING = {
-"C11":"claimed in DESIGN.md; check under construction, not registered yet",
-}
+PENDING = {}
 PY = "/venv/bin/python /verif/run_check.py"
 CHECKS = {
 "C08": dict(engine="cbfault", category="fault_enumeration", design_ref="DESIGN.md §6",
@@ -36,6 +34,10 @@ CHECKS["C14"] = dict(engine="nodemodel", category="exploration", design_ref="DES
   text="Seeded operation histories (up to 30, thorough 60 operations) on real yaml node trees through several yatiml.Node handles (root, attribute values, sequence items, two handles on one node, value nodes shared between keys) are executed step by step against an ordered-map / typed-scalar reference model written from the docstrings: after every operation the return value or exception class and the plain view of every live handle must equal the model's. get_value on parsed scalars is compared with PyYAML's own scalar constructors over a YAML 1.1/1.2 spelling alphabet; remove_attributes_with_default_values is checked against a MUST-remove / MUST-keep band and must never raise. No fault or schedule dimension exists for yatiml.Node and none is pretended.",
   note="Trusted: the reference model (two-sided where the documentation is). Operations are applied only where the docstrings allow them, on mappings with distinct scalar keys. A seeded sample of histories, not an exhaustive enumeration.",
   technique="model-based checking of seeded operation histories against an executable reference model (sequential refinement); Hypothesis as seeded plan generator/shrinker")
+CHECKS["C11"] = dict(engine="world", category="exploration", design_ref="DESIGN.md §4",
+  text="Seeded worlds: 1-3 class-model specs (same-named classes across specs), shared load/dump/JSON functions, K in 1..4 client threads with operation lists (loads from several source kinds, dumps to several sinks, function creation, plain-PyYAML probes, gc), and faults attached to operations (callback exception, cancellation at the n-th yield point, read/write error). Each world runs in a child forked from a pristine worker under a baton scheduler: real threads, pre-empted only at sys.settrace line/opcode events in yatiml, PyYAML and generated classes and at seam calls, the schedule tape deciding every switch (PCT-like change points, geometric run lengths, fixed quanta, and schedules derived from a profiling run that park a thread right after it wrote call-outliving state). Oracles: every finished operation equals the same operation in a fresh pristine child in which only its own function exists; PyYAML's and yatiml's base registries equal their import-time fingerprint at quiescence and at every context switch; user classes and dumped objects are unchanged; no deadlock.",
+  note="Trusted: pre-emption at source-line (knob: bytecode) granularity, C code atomic as under the GIL; canonical outcome comparison (value and callback trace, or exception class and message-token multiset); the pristine fork is a fresh process. A seeded sample of worlds and schedules, not an enumeration.",
+  technique="deterministic simulation: seeded baton scheduler over real threads (sys.settrace yield points) with fault injection, history compared with an isolated fresh-process reference; Hypothesis as seeded plan generator/shrinker")
 ENGINES = {
  "cbfault": ("sim/engines/cbfault.py", ["C08"], "callback-seam fault enumeration over generated class models"),
  "iosim": ("sim/engines/iosim.py", ["C12"], "simulated raw device / duck streams: chunk schedules and I/O fault enumeration"),
